@@ -20,7 +20,7 @@ ASSUMPTIONS = ["the response constructor's headers= argument is not a 'mutating 
                "cookie path/domain attributes are outside the statement (name and value only)"]
 
 KEYS = ["x", "X", "y", "a\rb", "a\nb", "a\0b"]
-VALUES = ["ok", "é", "a;b", "", "a\rb", "a\nb", "a\0b", "a\r\nset-cookie: x=1"]
+VALUES = ["ok", "é", "a;b", "", "a\rb", "a\nb", "a\0b", "a\r\nset-cookie: x=1", "attachment; filename=" + "文件" * 14 + ".txt"]
 DEPTH = {"quick": 3, "thorough": 4}
 COOKIE_ALPHA = ["\r", "\n", "\0", ";", ",", "=", '"', "\\", " ", "a", "é", "\x7f", "\x80", "中"]
 COOKIE_LEN = {"quick": 2, "thorough": 3}
@@ -186,6 +186,9 @@ def run_shard(desc, tier):
             res = emit(iface, resp)
             r.count("emissions")
             w = {"kind": "headers", "iface": iface, "init": list(init), "history": [list(o) for o in hist]}
+            wide = any(ord(c) > 0xFF for v in d.values() for c in v)
+            if wide and (isinstance(res.exc, UnicodeEncodeError) or any("Latin-1" in x for x in res.problems)):
+                return  # text outside Latin-1 cannot be sent as a header value: refusing it is no injection
             for p in line_problems(res) + res.problems:
                 r.violation("headers:emitted-line", w, f"{iface} after {hist}: {p}")
             em = dict((k.lower(), v) for k, v in res.headers)
@@ -216,6 +219,11 @@ def run_shard(desc, tier):
         for name in names[:40]:
             for value in strings:
                 check_cookie(r, name, value, full=False, late=True)
+        # text that already looks quoted: a leading and a trailing double quote around every short string
+        for s_ in strings:
+            check_cookie(r, "q", '"' + s_ + '"', full=False)
+            if idx == 0:
+                check_cookie(r, '"' + s_ + '"', "v", full=False)
         r.sample({"cookie_name": names[-1], "cookie_value": strings[-1]})
     else:
         a0 = URL_ALPHA[desc[1]]
@@ -239,6 +247,9 @@ def header_strings(r, iface, tier):
         "update-pairs": lambda h, k, v: h.update([(k, v)]),
         "update-map": lambda h, k, v: h.update({k: v}),
         "setdefault": lambda h, k, v: h.setdefault(k, v),
+        "update-from-MutableHeaders": lambda h, k, v: h.update(type(h)({k: v})),   # the constructor does not validate; update() must
+        "update-from-Headers": lambda h, k, v: h.update(type(h).__mro__[1]({k: v})),
+        "ior-like-update-kw": lambda h, k, v: h.update({}, **{k: v}),
     }
     n = 3 if tier == "quick" else 4
     strings = ["".join(t) for k in range(1, n + 1) for t in itertools.product(HDR_ALPHA, repeat=k)]
